@@ -429,7 +429,7 @@ def run(ctx) -> None:
     ctx.guard_as("R03.8", r14_3)
     from .c14 import r14_11
     ctx.guard_as("R03.8", r14_11)
-    ctx.guard_as("R03.8", r15_5)
+    ctx.guard_as("R03.8", r15_5, "jws")
     from .c14 import r14_4_5
     ctx.guard_as("R03.8", r14_4_5)  # the key picked for signing without a kid is a member of the set as it is now
     # "every payload octet string": the JSON extraction accepts every base64url payload member, the empty one included (C01's extraction rule)
@@ -444,9 +444,9 @@ def run(ctx) -> None:
     ctx.guard_as("R03.11", r07_12)
     ctx.guard_as("R03.11", r19_4_5)
     from .common import octet_length_lint
-    ctx.guard(octet_length_lint, "R03.13")  # "every key of the type and curve that algorithm requires": RSA moduli / curve sizes that are not multiples of 8
+    ctx.guard(octet_length_lint, "R03.13", "jws")  # "every key of the type and curve that algorithm requires": RSA moduli / curve sizes that are not multiples of 8
     from .c04 import r04_14
-    ctx.guard_as("R03.12", r04_14)  # "exactly the original header members": no member is ever removed from a header object
+    ctx.guard_as("R03.12", r04_14, "jws")  # "exactly the original header members": no member is ever removed from a header object
     ctx.guard(r03_7)
     ctx.guard(r03_6)
     ctx.guard(r03_1)
